@@ -41,6 +41,7 @@ class Doc(HTMLParser):
         self.stack = []
         self.mermaid = []
         self.scripts = []
+        self.script_types = []
 
     def handle_starttag(self, tag, attrs):
         if tag in ('meta', 'link', 'br', 'img', 'input', 'hr'):
@@ -48,6 +49,7 @@ class Doc(HTMLParser):
         self.stack.append((tag, dict(attrs)))
         if tag == 'script':
             self.scripts.append('')
+            self.script_types.append(dict(attrs).get('type'))
 
     def handle_endtag(self, tag):
         for i in range(len(self.stack) - 1, -1, -1):
@@ -58,7 +60,7 @@ class Doc(HTMLParser):
     def handle_data(self, data):
         if self.stack and self.stack[-1][0] == 'script':
             self.scripts[-1] += data
-        elif any(t == 'div' and a.get('class') == 'mermaid' for t, a in self.stack):
+        elif any('mermaid' in (a.get('class') or '').split() for t, a in self.stack):
             self.mermaid.append(data)
 
 
@@ -86,6 +88,45 @@ NODE = re.compile(r'(-?\d+)\{\{')
 
 def fmt(d):
     return d.strftime('%d.%m.%Y %H:%M')
+
+
+def find_gantt_json(d):
+    """the JSON the DHTMLX document embeds: a script element of type application/json, or the first JSON object with
+    "data" and "links" found after an opening brace inside a script.  returns (object or None, number found, last error)"""
+    found = []
+    err = ''
+    for txt, typ in zip(d.scripts, d.script_types):
+        if typ and 'json' in typ:
+            try:
+                o = json.loads(txt)
+                if isinstance(o, dict) and 'data' in o and 'links' in o:
+                    found.append(o)
+            except ValueError as e:
+                err = str(e)
+            continue
+        if '"data"' not in txt or '"links"' not in txt:
+            continue
+        i = 0
+        dec = json.JSONDecoder()
+        got_here = False
+        while True:
+            i = txt.find('{', i)
+            if i < 0:
+                break
+            try:
+                o, end = dec.raw_decode(txt, i)
+            except ValueError as e:
+                if not got_here and '"data"' in txt[i:i + 40]:
+                    err = str(e)
+                i += 1
+                continue
+            if isinstance(o, dict) and 'data' in o and 'links' in o:
+                found.append(o)
+                got_here = True
+                i = end
+            else:
+                i += 1
+    return (found[0] if len(found) == 1 else None), len(found), err
 
 
 def _dh_date(txt):
@@ -135,7 +176,7 @@ def parse_gantt(src):
     drx = _date_regex('DD.MM.YYYY HH:mm')
     for raw in src.split('\n'):
         line = raw.strip()
-        if not line or line == 'gantt':
+        if not line or line == 'gantt' or line.startswith('%%'):
             continue
         if line.startswith('dateFormat'):
             drx = _date_regex(line[len('dateFormat'):].strip())
@@ -177,60 +218,77 @@ def parse_gantt(src):
     return got, bad, sect_of
 
 
-_NODE = re.compile(r'\s*(?P<id>-?\w+)(?P<shape>\{\{|\(\(|\[)?')
-_CLOSE = {'{{': '}}', '((': '))', '[': ']'}
+_SHAPES = [('([', '])'), ('((', '))'), ('{{', '}}'), ('[[', ']]'), ('[(', ')]'), ('[/', '/]'), ('[', ']'), ('(', ')'), ('{', '}'), ('>', ']')]
+_EDGE = re.compile(r'\s*(-\.->|-->|==>|---|-\.-|===|--o|--x)\s*(\|[^|]*\|)?\s*')
+_ID = re.compile(r'\s*(-?\w+)')
+
+
+def _node(line, pos):
+    """node := id [shape-open label shape-close]; a quoted label may contain anything but a double quote.
+    returns (id, label or None, end) or None"""
+    m = _ID.match(line, pos)
+    if not m:
+        return None
+    nid, end = m.group(1), m.end()
+    for op_, cl in _SHAPES:
+        if line.startswith(op_, end):
+            start = end + len(op_)
+            if line.startswith('"', start):
+                q = line.find('"', start + 1)
+                if q < 0 or not line.startswith(cl, q + 1):
+                    return None
+                return nid, line[start + 1:q], q + 1 + len(cl)
+            k = line.find(cl, start)
+            if k < 0:
+                return None
+            return nid, line[start:k], k + len(cl)
+    return nid, None, end
 
 
 def parse_network(src, task_ids):
-    """Mermaid flowchart subset: node := id [shape text]; line := node [--> node]; `style ...` lines ignored.  A node
-    whose text is Start (or whose id is 0 / Start and is no task id) is the start node.  Node text ends at the first
-    closing delimiter (that is what makes a name containing '}}' unreadable: F-V2).  Returns (Counter of edges, bad lines)."""
+    """Mermaid flowchart subset: node declarations, edges `A --> B`, `A -.-> B`, `A -->|label| B`, `A --> B & C`;
+    `style`, `linkStyle`, `classDef`, `class`, `%%` lines ignored.  A node text ends at the first closing delimiter (that
+    is what makes a name containing '}}' unreadable: F-V2).  The start node is any edge source that is not a task id.
+    Returns (Counter of edges, unparsable lines)."""
     got = collections.Counter()
     bad = []
-    start_ids = set()
-
-    def node(line, pos):
-        m = _NODE.match(line, pos)
-        if not m:
-            return None
-        end = m.end()
-        text = None
-        if m.group('shape'):
-            close = _CLOSE[m.group('shape')]
-            k = line.find(close, end)
-            if k < 0:
-                return None
-            text = line[end:k]
-            end = k + len(close)
-        nid = m.group('id')
-        if text is not None and text.strip() == 'Start':
-            start_ids.add(nid)
-        return nid, end
     for raw in src.split('\n'):
         line = raw.rstrip()
-        if not line.strip() or line.strip().startswith(('flowchart', 'graph', 'style', 'classDef', 'class ', '%%')):
+        st = line.strip()
+        if not st or st.startswith(('flowchart', 'graph', 'style', 'linkStyle', 'classDef', 'class ', '%%', 'subgraph', 'end', 'direction', 'click')):
             continue
-        a = node(line, 0)
+        a = _node(line, 0)
         if not a:
             bad.append(raw)
             continue
-        rest = line[a[1]:]
-        if not rest.strip():
+        pos = a[2]
+        if not line[pos:].strip():
             continue                      # node declaration
-        m = re.match(r'\s*-->\s*', rest)
+        m = _EDGE.match(line, pos)
         if not m:
             bad.append(raw)
             continue
-        b_ = node(line, a[1] + m.end())
-        if not b_ or line[b_[1]:].strip():
+        pos = m.end()
+        targets = []
+        ok = True
+        while True:
+            b_ = _node(line, pos)
+            if not b_:
+                ok = False
+                break
+            targets.append(b_[0])
+            pos = b_[2]
+            m2 = re.match(r'\s*&\s*', line[pos:])
+            if m2 and m2.end() > 0 and line[pos:].strip():
+                pos += m2.end()
+                continue
+            break
+        if not ok or line[pos:].strip():
             bad.append(raw)
             continue
-
-        def key(nid):
-            if nid in start_ids or (nid in ('0', 'Start') and _as_int(nid) not in task_ids):
-                return 'S'
-            return _as_int(nid)
-        got[(key(a[0]), key(b_[0]))] += 1
+        src_id = _as_int(a[0])
+        for tg in targets:
+            got[('S' if src_id not in task_ids else src_id, _as_int(tg))] += 1
     return got, bad
 
 
@@ -316,7 +374,7 @@ def judge(case, acc):
         elif len(secs) >= 2:
             for t in tasks:
                 want = case['sections'].get(str(t.id), '-')
-                if sect_of.get(t.id) != want:
+                if sect_of.get(t.id) != want and not (want == '-' and sect_of.get(t.id) is None):
                     viol('gantt/section', f'task {t.id} under section {sect_of.get(t.id)!r}, expected {want!r}')
                     break
     except Exception as e:
@@ -350,16 +408,13 @@ def judge(case, acc):
     try:
         doc = DhtmlxGantt(s).to_html()
         d = parse_doc(doc)
-        scs = [x for x in d.scripts if 'gantt.parse(' in x]
-        if len(scs) != 1:
-            viol('dhtmlx/script', f'{len(scs)} scripts contain gantt.parse( (expected 1)')
-        else:
-            i = scs[0].index('gantt.parse(') + len('gantt.parse(')
-            try:
-                obj, _ = json.JSONDecoder().raw_decode(scs[0], i)
-            except ValueError as e:
+        obj, n_found, err = find_gantt_json(d)
+        if True:
+            if n_found == 0:
+                viol('dhtmlx/json-malformed', f'no well-formed JSON object with "data" and "links" is embedded in a script element ({err})')
+            elif n_found > 1:
+                viol('dhtmlx/script', f'{n_found} embedded JSON objects with "data" and "links" (expected 1)')
                 obj = None
-                viol('dhtmlx/json-malformed', f'embedded JSON does not parse: {e}')
             if obj is not None:
                 ids = collections.Counter(e['id'] for e in obj['data'])
                 if ids != collections.Counter(t.id for t in tasks):
@@ -410,7 +465,7 @@ def judge(case, acc):
         a = A(convert_charrefs=True)
         a.feed(h)
         a.close()
-        if A.n != 1 or A.val != doc or not h.lstrip().startswith('<iframe'):
+        if A.n != 1 or A.val != doc:
             viol(f'repr-html/{R.__name__}', '_repr_html_() is not one iframe whose srcdoc attribute, decoded by an HTML parser, equals to_html()')
 
 
